@@ -12,9 +12,9 @@ package main
 
 import (
 	"fmt"
-	"os"
 	"go/token"
 	"go/types"
+	"os"
 	"sort"
 	"strings"
 
@@ -22,7 +22,7 @@ import (
 )
 
 type rmwEvent struct {
-	field string          // "server.Server.settings"
+	field string // "server.Server.settings"
 	write bool
 	ins   ssa.Instruction // the load / store / map update / sync.Map call
 	val   ssa.Value       // read: the value obtained; write: the value stored
